@@ -3,6 +3,9 @@
 #include "vp.h"
 using gmlc::concurrency::Latch;
 enum { G_N = 0, G_BEGUN = 1 };
+#ifndef TOTAL_ARRIVALS
+#define TOTAL_ARRIVALS NARRIVE
+#endif
 extern "C" {
 void vp_hb_data_write(int loc) noexcept;
 void vp_hb_data_read(int loc) noexcept;
@@ -22,7 +25,8 @@ void vp_waiter()
     g_latch->wait();
     vp_assert(vp_g(G_BEGUN) >= vp_g(G_N), 1000);   // returns only after >= count arrive calls have begun
 #ifdef HB_DATA
-    if (vp_g(G_N) == NARRIVE) vp_hb_data_read(0);  // what the (only) arriver wrote before its arrivals is visible, race-free
+    // the datum is published to the waiter only if every arrival of the scenario is needed to open the latch
+    if (vp_g(G_N) == TOTAL_ARRIVALS) vp_hb_data_read(0);
 #endif
     g_latch->wait();                               // once open, every later wait returns
     vp_cover(vp_tid() - 1);
